@@ -45,7 +45,9 @@ func main() {
 		fmt.Fprintln(os.Stderr, "hx: -out required")
 		os.Exit(2)
 	}
-	if err := r(p); err != nil {
+	err := r(p)
+	profStop()
+	if err != nil {
 		fmt.Fprintf(os.Stderr, "hx: %v\n", err)
 		os.Exit(3)
 	}
